@@ -50,6 +50,11 @@ def plan(tier, seed):
 
 def gen_masses(rs, n, style):
     m0 = round(rs.uniform(1.0, 6.0), 4)
+    if style == "plain" and rs.chance(0.25):
+        # the same kinematics in MeV: momenta products far above one
+        fr = [rs.uniform(0.05, 1.0) for _ in range(n)]
+        tot = m0 * rs.uniform(0.2, 0.9)
+        return round(m0 * 1000.0, 1), [round(1000.0 * tot * f / sum(fr), 2) for f in fr]
     if style == "light":
         ms = [round(rs.uniform(0.0, 0.2), 4) if rs.chance(0.7) else 0.0 for _ in range(n)]
     elif style == "massless":
@@ -93,7 +98,7 @@ def generate(job):
         spec["j_later"] = rs.choice(["0_then_all", "1", "all", "iid"])
         if spec["j_later"] == "1":
             spec["N"] = min(spec["N"], 7)  # one acceptance per refill batch: keep the number of batches small
-    spec["variant"] = rs.weighted([("plain", 6), ("cal_max", 2), ("no_force", 1), ("weights", 1), ("interrupted", 1)]) if kind == "flat" else ("cal_max" if (kind == "config" and rs.chance(0.3)) else "plain")
+    spec["variant"] = rs.weighted([("plain", 6), ("cal_max", 2), ("no_force", 1), ("weights", 1), ("interrupted", 1), ("cal_max_interrupted", 1), ("fresh_after_importance", 1)]) if kind == "flat" else ("cal_max" if (kind == "config" and rs.chance(0.3)) else "plain")
     if kind in ("flat", "gen_mc"):
         n = rs.weighted([(2, 1), (3, 4), (4, 3), (5, 3), (6, 2)])
         m0, ms = gen_masses(rs, n, rs.weighted([("plain", 5), ("light", 2), ("massless", 2), ("threshold", 2)]))
@@ -158,7 +163,8 @@ def run_generator(spec, log):
 
     def get_weight(self, ms, importances=True):
         w = orig_get_weight(self, ms, importances=importances)
-        b = {"gen": rec.gen_serial(self), "masses": [np.array(i) for i in ms], "weight": np.array(w), "rnd": None, "importances": importances}
+        b = {"gen": rec.gen_serial(self), "masses": [np.array(i) for i in ms], "weight": np.array(w), "rnd": None, "importances": importances, "u_mass": list(pending.get("u", []))}
+        pending["u"] = []
         rec.batches.append(b)
         pending["b"] = b
         return w
@@ -207,6 +213,8 @@ def run_generator(spec, log):
                 b["rnd"] = np.array(out if out is not None else u, dtype=np.float64).reshape(shape)
                 pending["b"] = None
             return out
+        if role == "generate_mass" and mode != "boundary":
+            pending.setdefault("u", []).append(np.array(u))
         if mode == "boundary" and role in ("generate_mass", "generate_momentum_i"):
             # a quarter of the draws sit exactly on 0 or on 1-2^-53
             v = np.array(u)
@@ -214,6 +222,8 @@ def run_generator(spec, log):
             v = np.where(sel == 0, 0.0, v)
             v = np.where(sel == 1, 1.0 - 2.0 ** -53, v)
             log.count("fault.boundary_draws")
+            if role == "generate_mass":
+                pending.setdefault("u", []).append(np.array(v))
             return v
         return None
 
@@ -228,9 +238,51 @@ def run_generator(spec, log):
                     # tighten the bound with the library's own maximiser first: weights must still be <= 1
                     g.cal_max_weight()
                     log.count("probe.cal_max_weight_used")
-                    del rec.batches[:]  # weights evaluated by the maximiser itself are not proposals
+                    del rec.batches[:]
+                    pending["u"] = []  # weights evaluated by the maximiser itself are not proposals
                     pending["b"] = None
                     out = g.generate(N)
+                elif var == "cal_max_interrupted":
+                    # the bound-tightening step is interrupted by an exception; the same generator is used afterwards:
+                    # its acceptance weights must still be <= 1
+                    from sim.seams import InjectedFault, LineTracer
+                    import sys as _sys
+
+                    tr = LineTracer(fire_at=5 + spec["rng_seed"] % 120, exc_type=InjectedFault)
+                    try:
+                        try:
+                            with tr:
+                                g.cal_max_weight()
+                        finally:
+                            _sys.settrace(None)
+                        spec["_calmax_completed"] = True
+                    except InjectedFault:
+                        log.count("fault.cal_max_weight_interrupted")
+                    except Exception as e:
+                        log.ev("cal_max_raised", err=type(e).__name__)
+                    del rec.batches[:]
+                    pending["u"] = []
+                    pending["b"] = None
+                    out = g.generate(N)
+                elif var == "fresh_after_importance":
+                    # an importance proposal is installed on ONE generator object; a generator built afterwards for
+                    # the same masses is a new object and must be flat again
+                    from tf_pwa.generator.breit_wigner import BWGenerator
+
+                    first = ph.ChainGenerator(spec["m0"], list(spec["mi"]))
+                    g1 = first.gen[0]
+                    if g1.mass_range:
+                        lo, hi = g1.mass_range[0]
+                        g1.mass_generator[0] = BWGenerator(0.5 * (lo + hi), 0.1 * (hi - lo), lo, hi)
+                        first.generate(min(N, 7))
+                        log.count("probe.importance_proposal_installed_on_earlier_generator")
+                    del rec.batches[:]
+                    pending["u"] = []
+                    pending["b"] = None
+                    rec.n_flatten.clear()
+                    rec.gens.clear()
+                    fresh = ph.ChainGenerator(spec["m0"], list(spec["mi"]))  # a NEW generator for the same masses
+                    out = fresh.generate(N)
                 elif var == "interrupted":
                     # a generation interrupted by an exception at a seeded line, then the same generator is used again
                     from sim.seams import InjectedFault, LineTracer
@@ -246,6 +298,7 @@ def run_generator(spec, log):
                     except InjectedFault:
                         log.count("fault.generation_interrupted")
                     del rec.batches[:]
+                    pending["u"] = []
                     pending["b"] = None
                     rec.n_flatten.clear()
                     out = g.generate(N)
@@ -374,7 +427,7 @@ def check_flat_identity(np, log, spec, rec, kindkey):
                 fin = ~np.isnan(w)
                 w = np.where(fin, w, 0.0)
             if not (np.all(w <= 1.0 + 1e-12) and np.all(w >= 0.0)):
-                sfx = "|after-cal_max_weight" if spec.get("variant") == "cal_max" else ""
+                sfx = "|after-cal_max_weight" if (spec.get("variant") == "cal_max" or spec.get("_calmax_completed")) else ""
                 log.fail("weight-bound", "%s|weight-bound%s" % (kindkey, sfx), "acceptance weight outside [0,1]: max %.17g min %.3g (m0=%r, masses=%r)%s" % (float(np.max(w)), float(np.min(w)), m0, mm, "; the bound had been tightened by cal_max_weight()" if sfx else ""))
                 return False
             ms = b["masses"]
@@ -384,10 +437,20 @@ def check_flat_identity(np, log, spec, rec, kindkey):
             f = np.ones(w.shape)
             ginv = np.ones(w.shape)
             inside = np.ones(w.shape, dtype=bool)  # proposals well inside the kinematic region (no cancellation in q)
+            um = b.get("u_mass") or []
             for i in range(n - 2):
                 a = prev + mm[-i - 2]
                 bnd = m0 - sum(mm[: n - i - 2])
                 Mi = ms[i]
+                # the proposal itself: drawn uniformly between its kinematic limits from the delivered uniform
+                if len(um) == n - 2 and um[i].shape == Mi.shape:
+                    want = (bnd - a) * um[i] + a
+                    if not np.allclose(Mi, want, rtol=1e-12, atol=1e-12 * m0):
+                        log.fail("proposal-uniform", "%s|proposal-not-uniform" % kindkey, "intermediate mass %d of the %d-body generator (m0=%r) is not (b-a)*u+a for the delivered uniform u: the proposals are not drawn from the flat proposal density the weight assumes" % (i, n, m0))
+                        return False
+                elif b.get("u_mass") is not None and len(um) != n - 2 and w.size:
+                    log.fail("proposal-uniform", "%s|proposal-not-uniform" % kindkey, "the %d-body generator (m0=%r) consumed %d uniform mass draws for a batch instead of %d: some intermediate mass is proposed by something else than the flat proposal" % (n, m0, len(um), n - 2))
+                    return False
                 qi = qmom(np, Mi, prev, mm[-i - 2])
                 f = f * qi
                 inside &= (qi > 1e-3 * m0) & (bnd - a > 1e-3 * m0)
@@ -472,9 +535,18 @@ def execute(spec):
                     raise StopIteration
             if var == "weights":
                 w = np.array(spec.pop("_weights_returned"))
-                if (w.shape != (N,) and w.shape != ()) or np.any(w > 1 + 1e-12) or np.any(w < 0):
+                wf = np.where(np.isnan(w), 0.0, w)
+                if (w.shape != (N,) and w.shape != ()) or np.any(wf > 1 + 1e-12) or np.any(wf < 0):
                     log.fail("weight-bound", "flat|returned-weights", "generate(flatten=False) returned weights outside [0,1] or of the wrong length", )
                     raise StopIteration
+                if w.shape == (N,):
+                    # weighted proposals: only those with a positive weight are events (an exactly degenerate
+                    # proposal has weight 0 or 0/0 and undefined momenta)
+                    keep = wf > 0
+                    ps = [p[keep] for p in ps]
+                    N = int(keep.sum())
+                    if N == 0:
+                        raise StopIteration
             if len(ps) != n or any(p.shape != (N, 4) for p in ps):
                 log.fail("count", "%s|count" % kind, "requested N=%d events of %d bodies, got shapes %s (script %s/%s/%s)" % (N, n, [p.shape for p in ps], spec.get("script"), spec.get("j_first"), spec.get("j_later")))
                 raise StopIteration
@@ -490,7 +562,7 @@ def execute(spec):
                 log.fail("momentum-conservation", "%s|momentum-conservation" % kind, "momenta do not add up to the parent at rest: |sum E - m0| = %.3g, |sum p| = %.3g (m0=%r, masses=%r)" % (dE, dp, m0, mi))
                 raise StopIteration
             # exactly-once / order: emitted event r comes from the r-th accepted proposal
-            if var in ("plain", "cal_max", "interrupted") and n >= 3 and rec.batches and all(b["rnd"] is not None for b in rec.batches):
+            if var in ("plain", "cal_max", "interrupted", "cal_max_interrupted", "fresh_after_importance") and n >= 3 and rec.batches and all(b["rnd"] is not None for b in rec.batches):
                 acc = [[] for _ in range(n - 2)]
                 for b in rec.batches:
                     sel = b["weight"] > b["rnd"]
